@@ -285,8 +285,11 @@ impl<'p> SessionInner<'p> {
 
     fn find_import(&self, program: &Program<'p>, from: SpanId, path: &str) -> Option<PathBuf> {
         let path = Path::new(path);
+        // `try_exists` fails when the path cannot be inspected (a symlink loop, a
+        // directory that cannot be searched): that is an unreadable file, which the
+        // load reports at the import site, and not a missing one.
         if path.is_absolute() {
-            if path.exists() {
+            if path.try_exists().unwrap_or(true) {
                 Some(path.to_path_buf())
             } else {
                 None
@@ -304,7 +307,7 @@ impl<'p> SessionInner<'p> {
                 .chain(self.search_paths.iter().map(PathBuf::as_path))
             {
                 let full_path = base_path.join(path);
-                if full_path.exists() {
+                if full_path.try_exists().unwrap_or(true) {
                     return Some(full_path);
                 }
             }
